@@ -352,3 +352,188 @@ def wellformed_base_document_loads(S):
 def canary_area_is_always_one(S):
     out, E, EA = _load(S, {"Modules": {"M": soft_module(S, "m", "scalar", True)}})
     S.ensure("canary.area_one", seq(out.value.modules[0].area(), 1) if out.ok else False)
+
+
+# ---- bounded leg: larger concrete documents (the symbolic templates stop at 5 modules / 3 rectangles / 4 pins) ------------------------
+
+def _big_document(rng):
+    """a well-formed document with 6-12 modules of every kind (up to 5 pairwise disjoint rectangles each) and 3-8 nets of 2-8 pins"""
+    k = rng.randint(6, 12)
+    mods = {}
+    for i in range(k):
+        nm = f"M{i}"
+        kind = rng.choice(["soft", "soft_regions", "soft_rects", "hard", "fixed", "terminal", "fterminal", "flip"])
+        x0, y0 = 10.0 * i, rng.choice([0.0, 3.5, 12.25])
+        nr = rng.randint(1, 5)
+        # a trunk with branches on top (disjoint by construction, different areas)
+        rects = [[x0 + 3.0, y0 + 1.0, 6.0, 2.0]]
+        for j in range(nr - 1):
+            w, h = rng.choice([0.5, 1.0]), rng.choice([0.5, 1.0, 2.5])
+            rects.append([x0 + 0.5 + 1.25 * j + w / 2, y0 + 2.0 + h / 2, w, h])
+        if kind == "soft":
+            mods[nm] = {"area": rng.choice([1, 2.5, 7]), "center": [x0, y0]}
+            if rng.random() < 0.5:
+                mods[nm]["aspect_ratio"] = rng.choice([2, [0.5, 3]])
+        elif kind == "soft_regions":
+            mods[nm] = {"area": {"LUT": rng.choice([1, 2.5]), "DSP": 0.5, "_": 3}}
+        elif kind == "soft_rects":
+            mods[nm] = {"area": rng.choice([20, 31.5]), "rectangles": [r + (["LUT"] if rng.random() < 0.3 else []) for r in rects]}
+        elif kind in ("hard", "flip"):
+            mods[nm] = {"hard": True, "rectangles": rects}
+            if kind == "flip":
+                mods[nm]["flip"] = True
+        elif kind == "fixed":
+            mods[nm] = {"fixed": True, "rectangles": rects}
+        elif kind == "terminal":
+            mods[nm] = {"terminal": True, "center": [x0, y0]}
+        else:
+            mods[nm] = {"terminal": True, "fixed": True, "center": [x0, y0]}
+    names = list(mods)
+    nets = []
+    for _ in range(rng.randint(3, 8)):
+        pins = rng.sample(names, rng.randint(2, min(8, k)))
+        nets.append(pins + ([rng.choice([2, 0.5, 7])] if rng.random() < 0.5 else []))
+    return {"Modules": mods, "Nets": nets}
+
+
+def _inject(rng, doc):
+    """one defect of a listed class at a random place of a well-formed document"""
+    import copy
+    d = copy.deepcopy(doc)
+    names = list(d["Modules"])
+    kinds = {n: ("terminal" if m.get("terminal") else "hard" if (m.get("hard") or m.get("fixed")) else "soft") for n, m in d["Modules"].items()}
+    soft = [n for n in names if kinds[n] == "soft"]
+    hard = [n for n in names if kinds[n] == "hard"]
+    defect = rng.choice(["unknown_module_in_net", "weight_zero", "weight_negative", "one_pin_net", "area_nonpositive", "soft_without_area",
+                         "hard_with_area", "hard_without_rectangles", "hard_overlapping_rectangles", "unknown_attribute", "rect_size_nonpositive",
+                         "invalid_name"])
+    if defect == "unknown_module_in_net":
+        net = rng.choice(d["Nets"])
+        net[rng.randrange(sum(isinstance(x, str) for x in net))] = "Nobody"
+    elif defect in ("weight_zero", "weight_negative"):
+        net = rng.choice(d["Nets"])
+        w = 0 if defect == "weight_zero" else -1.5
+        if isinstance(net[-1], str):
+            net.append(w)
+        else:
+            net[-1] = w
+    elif defect == "one_pin_net":
+        d["Nets"].insert(rng.randrange(len(d["Nets"]) + 1), [rng.choice(names)] + ([3] if rng.random() < 0.5 else []))
+    elif defect == "area_nonpositive" and soft:
+        m = d["Modules"][rng.choice(soft)]
+        if isinstance(m["area"], dict):
+            m["area"][rng.choice(list(m["area"]))] = rng.choice([0, -1])
+        else:
+            m["area"] = rng.choice([0, -2])
+    elif defect == "soft_without_area" and soft:
+        del d["Modules"][rng.choice(soft)]["area"]
+    elif defect == "hard_with_area" and hard:
+        d["Modules"][rng.choice(hard)]["area"] = 4
+    elif defect == "hard_without_rectangles" and hard:
+        del d["Modules"][rng.choice(hard)]["rectangles"]
+    elif defect == "hard_overlapping_rectangles" and [n for n in hard if len(d["Modules"][n]["rectangles"]) >= 2]:
+        m = d["Modules"][rng.choice([n for n in hard if len(d["Modules"][n]["rectangles"]) >= 2])]
+        rs = m["rectangles"]
+        i, j = rng.sample(range(len(rs)), 2)
+        rs[j] = [rs[i][0] + rs[i][2] / 4, rs[i][1] + rs[i][3] / 4, rs[j][2], rs[j][3]]      # rectangle j now overlaps rectangle i
+    elif defect == "unknown_attribute":
+        d["Modules"][rng.choice(names)]["colour"] = "red"
+    elif defect == "rect_size_nonpositive" and [n for n in names if d["Modules"][n].get("rectangles")]:
+        m = d["Modules"][rng.choice([n for n in names if d["Modules"][n].get("rectangles")])]
+        m["rectangles"][rng.randrange(len(m["rectangles"]))][rng.choice([2, 3])] = rng.choice([0, -1])
+    elif defect == "invalid_name":
+        nm = rng.choice(names)
+        d["Modules"] = {("9 lives" if k == nm else k): v for k, v in d["Modules"].items()}
+        d["Nets"] = [[x for x in net if x != nm] for net in d["Nets"]]
+        d["Nets"] = [net for net in d["Nets"] if sum(isinstance(x, str) for x in net) >= 2]
+    else:
+        return None, None
+    return defect, d
+
+
+@contract(P, kind="enum", functions=[N + "netlist.Netlist.__init__", N + "module.Module.setup", N + "netlist_types.HyperEdge.wire_length",
+                                     N + "netlist.Netlist._create_rectangles", N + "yaml_read_netlist.parse_yaml_netlist"],
+          scope="bounded: concrete documents of 6-12 modules (up to 5 rectangles each) and 3-8 nets of 2-8 pins, each also with one injected defect",
+          params=[dict(chunk=i) for i in range(8)])
+def larger_documents(chunk, replay=None):
+    import math
+    import os
+    import random
+    tier = os.environ.get("VERIF_TIER", "quick")
+    rng = random.Random(500 + chunk + 100 * int(os.environ.get("VERIF_SEED", "0") or 0))
+    n_docs = 30 if tier != "thorough" else 500
+    failures, evals, nontriv, samples, injected = [], 0, 0, [], {}
+    for it in range(n_docs):
+        doc = replay["doc"] if replay else _big_document(rng)
+        expect_reject = bool(replay and replay.get("defect"))
+        evals += 1
+        Rectangle.undefine_epsilon()
+        try:
+            n = Netlist(doc)
+            loaded = True
+        except AssertionError as e:
+            loaded, why = False, str(e)
+        if expect_reject:
+            if loaded:
+                failures.append(dict(clause="big.ill_formed_design_rejected", defect=replay["defect"], doc=doc))
+            break
+        if not loaded:
+            failures.append(dict(clause="big.well_formed_document_loads", doc=doc, observed=why))
+            continue
+        nontriv += 1
+        cs = symx.ConcreteState({})
+        mods = doc["Modules"]
+        if [m.name for m in n.modules] != list(mods):
+            failures.append(dict(clause="big.modules_in_document_order", doc=doc))
+        for nm, info in mods.items():
+            _check_module(cs, "big", n.get_module(nm), info)
+        want_rects = sum(len(info.get("rectangles", [])) for info in mods.values())
+        fixed_ids = {id(r) for nm, info in mods.items() if info.get("fixed") for r in n.get_module(nm).rectangles}
+        if len(n.rectangles) != want_rects or {id(r) for r in n.fixed_rectangles()} != fixed_ids:
+            cs.failed.append("big.rectangle_lists")
+        tot = 0.0
+        for e, net in zip(n.edges, doc["Nets"]):
+            pins = [x for x in net if isinstance(x, str)]
+            w = net[-1] if not isinstance(net[-1], str) else 1
+            ctr = []
+            for p in pins:
+                c = spec_center(mods[p])
+                ctr.append((float(c[0]), float(c[1])) if c is not None else None)
+            if [m.name for m in e.modules] != pins or abs(e.weight - w) > 1e-12:
+                cs.failed.append("big.net_members_and_weights")
+            if all(c is not None for c in ctr):
+                mx, my = sum(c[0] for c in ctr) / len(ctr), sum(c[1] for c in ctr) / len(ctr)
+                exp = w * sum(math.hypot(c[0] - mx, c[1] - my) for c in ctr)
+                tot += exp
+                if abs(e.wire_length - exp) > 1e-9 * max(1.0, exp):
+                    cs.failed.append("big.wire_length_is_weight_times_sum_of_distances_to_mean")
+            else:
+                tot = None
+                break
+        if tot is not None and len(n.edges) == len(doc["Nets"]) and abs(n.wire_length - tot) > 1e-9 * max(1.0, tot):
+            cs.failed.append("big.netlist_wire_length_is_sum_over_nets")
+        if len(n.edges) != len(doc["Nets"]):
+            cs.failed.append("big.one_edge_per_net")
+        for cl in sorted(set(cs.failed)):
+            failures.append(dict(clause=cl, doc=doc))
+        # one defect injected somewhere: rejected
+        defect, bad = _inject(rng, doc)
+        if defect:
+            evals += 1
+            injected[defect] = injected.get(defect, 0) + 1
+            Rectangle.undefine_epsilon()
+            try:
+                Netlist(bad)
+                failures.append(dict(clause="big.ill_formed_design_rejected", defect=defect, doc=bad))
+            except (AssertionError, KeyError, TypeError, ValueError):
+                pass
+        if not samples:
+            samples.append(dict(modules=len(mods), nets=len(doc["Nets"]), first=list(mods.items())[0]))
+        if len(failures) >= 4 or replay:
+            break
+    Rectangle.undefine_epsilon()
+    return dict(evaluations=evals, distinct_nontrivial=nontriv, exhaustive=False, failures=failures[:4],
+                rule="random well-formed documents (6-12 modules: soft scalar / per-region / with rectangles in named regions, hard, flippable, fixed, "
+                     "terminals; up to 5 pairwise disjoint rectangles of different areas; 3-8 nets of 2-8 pins, half of them weighted) loaded by the real "
+                     "Netlist; every module against spec_area / spec_center / rectangle lists, every net against the wire-length definition; then one "
+                     f"defect injected at a random place must be rejected; injected: {injected}", samples=samples, bound=f"{n_docs} documents per chunk")
